@@ -100,6 +100,9 @@ def slot_pick(out, A, fr, i, k):
     o, v = out[0][i, k], out[1][i, k]
     if isinstance(o, (Opaque, SymArr)) or isinstance(v, (Opaque, SymArr)) or any(isinstance(c, Opaque) for c in np.asarray(o, dtype=object).flat):
         raise Inconclusive("an output slot is not a plain selection of input cells (unmodelled operation on the path)")
+    from .common import _havoced
+    if any(_havoced(c) for c in np.asarray(o, dtype=object).flat) or _havoced(v):
+        raise Inconclusive("an output slot depends on an operation the interpreter could not follow (havoc)")
     N, M = fr.shape
     hits = [g for g in range(M) if all(lift(x) == lift(y) for x, y in zip(np.asarray(o, dtype=object).flat, A[i, g].flat))]
     if not hits:
@@ -147,7 +150,7 @@ def region_check(ctx, tag, loc, N, M, ns, snaps, seed):
             return res, I0
         base_picks[sl] = g
     for ua, pos in sorted(variates.items(), key=lambda kv: kv[1]):
-        pieces, x = [], 2.0 ** -40
+        pieces, x = [], 2.0 ** -30
         for _ in range(4 * M + 6):
             try:
                 I, out = interpret(ctx, A, fr, ns, seed, model, {pos: x})
@@ -172,7 +175,7 @@ def region_check(ctx, tag, loc, N, M, ns, snaps, seed):
                 break
             if hi[0] <= x:
                 raise Inconclusive("the sweep over a variate does not advance")
-            x = hi[0] + 2.0 ** -40
+            x = hi[0] + 2.0 ** -30
         else:
             raise Inconclusive("the sweep over a variate did not reach 1")
         for sl in slots:
@@ -279,7 +282,9 @@ def run(ctx):
             n_s = M if ns is None else ns
             draws = [e for e in I0.trace if e.kind == "rng-draw"]
             rngs = [e for e in I0.trace if e.kind == "rng"]
-            opts = [d.data[4] for d in draws if len(d.data) > 4 and d.data[4]]
+            # `out=` only says where the variates are stored; dtype / other options change what is drawn
+            opts = [tuple(o for o in d.data[4] if o[0] != "out") for d in draws if len(d.data) > 4 and d.data[4]]
+            opts = [o for o in opts if o]
             ok = len(rngs) == 1 and rngs[0].data == ("default_rng", keyof(seed)) and all(d.data[0] == "random" for d in draws) \
                 and len(I0.model_uatoms) == N * n_s and not opts
             ctx.ob("C15.rng", tag, ok, f"generators {[e.data for e in rngs]}, draws {[d.data[0] for d in draws]}, variates {len(I0.model_uatoms)} for {N * n_s} slots"
